@@ -138,7 +138,8 @@ def make_wrapper(
             This means that those changes can be reverted from this point out.
             """
             self._configurable.commit()
-            object.__setattr__(self, "_reuse_pt", 0)
+            # never reuse an earlier generation: attributes cached under it are stale
+            object.__setattr__(self, "_reuse_pt", self._reuse_pt + 1)
 
         def changes_count(self):
             """current commit point for the configurable"""
@@ -208,6 +209,7 @@ def make_wrapper(
                     entry_point = self.changes_count()
                     try:
                         list(map(self._configurable.remove, vals))
+                        object.__setattr__(self, "_reuse_pt", self._reuse_pt + 1)
                         return True
                     except Unchangable:
                         self.rollback(entry_point)
